@@ -3,15 +3,16 @@
 (* C10 / C11, L1 - the column model.  The alphabet's width classes are a  *)
 (* specification constant (checked against cwcwidth by ./check setup):    *)
 (*   narrow  a b x space          1 column                                 *)
-(*   wide    U+FF25 U+65E5        2 columns                                *)
+(*   wide    U+FF25 U+65E5 U+1F600 2 columns                                *)
 (*   zero    U+0301 U+200B        0 columns (combining / zero width)       *)
+(*           U+0E31 U+200D U+1160 0 columns, canonical combining class 0    *)
 (* Cols(cells) is the column-expanded list: one entry <<cp, atts, half>>  *)
 (* per occupied column, half = "N" narrow, "L"/"R" halves of a wide char. *)
 (***************************************************************************)
 EXTENDS Base
 
-WideSet == {65317, 26085}
-ZeroSet == {769, 8203}
+WideSet == {65317, 26085, 128512}
+ZeroSet == {769, 8203, 3633, 8205, 4448}
 W(cp) == IF cp \in WideSet THEN 2 ELSE IF cp \in ZeroSet THEN 0 ELSE 1
 
 CellCols(c) == IF W(c[1]) = 2 THEN << <<c[1], c[2], "L">>, <<c[1], c[2], "R">> >>
